@@ -67,6 +67,32 @@ func VerifC08IPv4TailDigits() {
 	compareParse(in, "", false)
 }
 
+// ipv6RuneCtxs: positions of a hex digit, a piece separator and an IPv4 digit inside a literal.
+var ipv6RuneCtxs = []ctx{{"::", ""}, {"", "::"}, {"1:2:3:4:5:6:7:", ""}, {"1", "::2"}, {"::1", ""}, {"::1.2.3.", ""}, {"::", ".2.3.4"}, {"1:2:3:4:5:6:7", "8"}}
+
+// VerifC08HostIPv6Runes: a symbolic non-ASCII scalar value (whole code space; alone or next to one byte of the
+// IPv6 alphabet) at every kind of position inside the brackets: nothing but ASCII hex digits, ':' and '.'
+// is ever part of an address, whatever the low bits of the code point look like.
+func VerifC08HostIPv6Runes() {
+	schemes := []string{"http", "a"}
+	scheme := schemes[vnd.Pick(len(schemes))]
+	c := ipv6RuneCtxs[vnd.Pick(len(ipv6RuneCtxs))]
+	w := nonASCIIScalar()
+	switch vnd.Pick(3) {
+	case 1:
+		w = vnd.StrOver(1, sigmaIPv6) + w
+	case 2:
+		w = w + vnd.StrOver(1, sigmaIPv6)
+	}
+	in := scheme + "://[" + c.pre + w + c.suf + "]/"
+	_, err := Parse(in)
+	vnd.Cover("ipv6-rune-rejected", err != nil)
+	if err == nil {
+		vnd.Fail("an IPv6 literal containing a non-ASCII code point was accepted")
+	}
+	compareParse(in, "", false)
+}
+
 // VerifC08HostBrackets: every arrangement of brackets around/inside the host.
 func VerifC08HostBrackets() {
 	schemes := []string{"http", "a", "file"}
@@ -160,6 +186,7 @@ func VerifC08IPv6RoundTrip() {
 }
 
 func init() {
+	verifHarnesses["VerifC08HostIPv6Runes"] = VerifC08HostIPv6Runes
 	verifHarnesses["VerifC08IPv4TailDigits"] = VerifC08IPv4TailDigits
 	verifHarnesses["VerifC08HostIPv6Text"] = VerifC08HostIPv6Text
 	verifHarnesses["VerifC08HostIPv6Shapes"] = VerifC08HostIPv6Shapes
